@@ -75,6 +75,23 @@ fn tri<T: Sc>(t: &mut Toks, cx: &mut Ctx, to_q: Option<fn(&T) -> Option<Q>>) -> 
         guarded(|| { let mut x = tm.clone(); x += s; x }), guarded(|| { let mut x = tm.clone(); x -= s; x }),
         guarded(|| { let mut x = tm.clone(); x *= s; x }), guarded(|| { let mut x = tm.clone(); x /= s; x })];
     for a in &ar { push_res(&mut out, a.as_ref().map(|x| wr_tri(x)).map_err(|c| *c), cx); }
+    // more entry points: indexed write, constructors, resize, transpose_in_place
+    let extra: Vec<Result<Tridiagonal<T>, &'static str>> = vec![
+        guarded(|| { let mut z = tm.clone(); z[(i, j)] = s; z }),
+        guarded(|| Tridiagonal::<T>::with_elements(s, s + T::one(), s - T::one(), i)),
+        guarded(|| Tridiagonal::<T>::new(j)),
+        guarded(|| { let mut z = tm.clone(); z.resize(i); z }),
+        guarded(|| { let mut z = tm.clone(); z.transpose_in_place(); z }),
+        guarded(|| Tridiagonal::with_vectors(Vector::create(sub.clone()), Vector::create(main.clone()), Vector::create(sup.clone())))];
+    for a in &extra { push_res(&mut out, a.as_ref().map(|x| wr_tri(x)).map_err(|c| *c), cx); }
+    match &extra[0] { Ok(z) => { cx.check(inband, "indexed write outside the band succeeded");
+            if inband { let mut dd = d.clone(); dd[i][j] = s; let zd = dense(&z.subdiagonal().vec, &z.maindiagonal().vec, &z.superdiagonal().vec); cx.check((0..n).all(|a| (0..n).all(|b| zd[a][b].same(&dd[a][b]))), "indexed write changed something else than the addressed entry"); } }
+        Err(_) => cx.check(!inband, "in-band indexed write rejected") }
+    if let Ok(z) = &extra[1] { cx.check(i >= 1 && z.size() == i && (0..i).all(|a| z.maindiagonal()[a].same(&(s + T::one()))) && (0..i - 1).all(|a| z.subdiagonal()[a].same(&s) && z.superdiagonal()[a].same(&(s - T::one()))), "with_elements"); } else { cx.check(i == 0, "with_elements panicked for a positive size"); }
+    if let Ok(z) = &extra[2] { cx.check(j >= 1 && z.size() == j && z.maindiagonal().vec.iter().all(|a| *a == T::zero()) && z.subdiagonal().size() == j - 1, "new"); } else { cx.check(j == 0, "new panicked for a positive size"); }
+    if let Ok(z) = &extra[3] { cx.check(i >= 1 && z.size() == i && z.maindiagonal().size() == i && z.subdiagonal().size() == i - 1 && z.superdiagonal().size() == i - 1, "resize"); } else { cx.check(i == 0, "resize panicked for a positive size"); }
+    if let (Ok(z), Ok(t2)) = (&extra[4], &tr) { cx.check(same_tri(z, t2), "transpose_in_place differs from transpose"); }
+    if let Ok(z) = &extra[5] { cx.check(same_tri(z, &tm), "with_vectors differs from with_vecs"); }
     cx.check(same_tri(&tm, &snap), "a by-reference call mutated the matrix");
     // entrywise oracle for the arithmetic
     let f: [&dyn Fn(T, T) -> T; 9] = [&|a, _| -a, &|a, b| a + b, &|a, b| a - b, &|a, _| a * s, &|a, _| a / s, &|a, _| a + s, &|a, _| a - s, &|a, _| a * s, &|a, _| a / s];
